@@ -133,7 +133,14 @@ func Fresh(prefix string, s Sort) *Term {
 	TS.fresh++
 	return Var(fmt.Sprintf("%s!%d", prefix, TS.fresh), s)
 }
-func App(name string, s Sort, args ...*Term) *Term { return TS.mk("app", s, name, nil, 0, 0, args...) }
+func App(name string, s Sort, args ...*Term) *Term {
+	if concreteOn && len(args) > 0 {
+		if r := foldApp(name, s, args); r != nil {
+			return r
+		}
+	}
+	return TS.mk("app", s, name, nil, 0, 0, args...)
+}
 
 func (t *Term) IsConst() bool { return t.op == "const" }
 func (t *Term) IsTrue() bool  { return t.op == "const" && t.sort.K == KBool && t.val.Sign() != 0 }
@@ -208,6 +215,10 @@ func Eq(a, b *Term) *Term {
 	}
 	if a.IsConst() && b.IsConst() {
 		return BoolC(a.val.Cmp(b.val) == 0)
+	}
+	if a.op == "app" && b.op == "app" && len(a.args) == 0 && len(b.args) == 0 &&
+		(strings.HasPrefix(a.name, "gconst:") && strings.HasPrefix(b.name, "gconst:") || strings.HasPrefix(a.name, "strlit:") && strings.HasPrefix(b.name, "strlit:")) {
+		return BoolC(false) // distinct canonical constants
 	}
 	if a.sort.K == KBool {
 		if a.IsConst() {
